@@ -432,7 +432,12 @@ func (wr *warcRecord) parseBlock(reader io.Reader, validation *Validation) (err 
 		}
 	}
 
-	wr.block = newGenericBlock(wr.opts, reader, blockDigest)
+	block := newGenericBlock(wr.opts, reader, blockDigest)
+	if wr.recordType == Resource {
+		// The payload of a resource record is its block
+		block.payloadDigest = payloadDigest
+	}
+	wr.block = block
 	return
 }
 
@@ -475,7 +480,7 @@ func (wr *warcRecord) ValidateDigest(validation *Validation) error {
 	case *genericBlock:
 		blockDigest = v.blockDigest
 		if wr.recordType == Resource {
-			payloadDigest = blockDigest
+			payloadDigest = v.payloadDigest
 		}
 	case *httpRequestBlock:
 		blockDigest = v.blockDigest
